@@ -217,6 +217,15 @@ def gen_world(rng, profile):
             bl = W.blocks_of(scn, oc)
             if bl:
                 ops.append({"op": "constraint_mode", "obj": list(op_), "block": r.choice(bl)["name"], "val": r.random() < 0.35, "inst": inst})
+    # a block over list elements (indexed references, foreach) switched off and on again around calls: while it is off the
+    # elements are as free as any field no enabled block mentions
+    zz = [(list(op_), b["name"]) for op_, oc in opaths for b in W.blocks_of(scn, oc) if b["name"].startswith("zz")]
+    if zz and r.random() < 0.6:
+        op_, bn = r.choice(zz)
+        ops.append({"op": "constraint_mode", "obj": op_, "block": bn, "val": False, "inst": 0})
+        ops.append({"op": "randomize", "target": [], "inline": None, "seed": r.randrange(1 << 30), "inst": 0})
+        if r.random() < 0.5:
+            ops.append({"op": "constraint_mode", "obj": op_, "block": bn, "val": True, "inst": 0})
     for i in range(ninst):
         ops.append({"op": "randomize", "target": [], "inline": None, "seed": r.randrange(1 << 30), "inst": i})
     scn["ops"] = ops
